@@ -34,6 +34,7 @@
   Full statement kept as a comment at the end of this file.
 -/
 import MdProofs.Lemmas.WalkCfiChainLoop
+import MdProofs.Lemmas.RangeMap
 namespace MdModel.Walk
 open MdModel
 
@@ -102,12 +103,6 @@ theorem expectedCfi_length (env : Env) (w : World) (a : Arch) (chain : List Exp)
   | nil => rfl
   | cons e rest ih => simp [expectedCfi, ih]
 
-/-- the frame pointer is a valid register of every frame found by CFI below an all-valid context -/
-theorem has_fp_validAfter (a : Arch) (c : Ctx) (h : c.valid = some (validAfter a)) :
-    c.has a a.fpName = true := by
-  cases a <;> simp [Ctx.has, h, validAfter, setInsert, Arch.calleeSaved, Arch.aliases, Arch.fpName,
-    Arch.spName, Arch.ipName]
-
 /-- "… recovered callee-saved registers …": under the precondition, frame `i` carries the claimed
     frame pointer, as a valid register -/
 theorem expectedCfi_fp (env : Env) (w : World) (a : Arch) (os : Os) (mask : Nat) (mem : Mem) (chain : List Exp) :
@@ -161,5 +156,81 @@ example : ∀ a ∈ [Arch.x86, .amd64, .arm, .arm64, .arm64old, .mips32, .mips64
     tokenize (canonicalRule a n true) = canonicalToks a n true ∧
     tokenize (canonicalRule a n false) = canonicalToks a n false ∧
     tokenize (leafRule a) = leafToks a := by decide +kernel
+
+/-! ## non-vacuity: a two-call STACK CFI chain on x86-64 satisfying `Pre … .cfi`
+
+  One module with two records: `[0x100, 0x200)` saves `$rbp`, `[0x300, 0x400)` does not. The
+  context frame is in the second (its caller inherits `rbp = 7`), the caller in the first (its
+  caller's `rbp` is the saved word 0), the outermost frame at `0x4007ff` has no record.
+  The range tables are computed with C08's lemmas (`sortEntries_of_sep`, `pass_of_sep`: a sorted,
+  separated list of records is its own table), everything else — tokenizing the rule texts,
+  reading the stack words — by kernel evaluation. -/
+
+def exCfiSf : SymFile :=
+  { cfis := [ { addr := 0x100, size := 0x100, init := ".cfa: $rsp 16 + .ra: .cfa -8 + ^ $rbp: .cfa -16 + ^", adds := [] },
+              { addr := 0x300, size := 0x100, init := ".cfa: $rsp 16 + .ra: .cfa -8 + ^", adds := [] } ] }
+def exCfiW : World := { mods := [{ base := 0x400000, size := 0x1000, name := "m" }], syms := [some exCfiSf] }
+def exCfiMem : Mem :=
+  { base := 4096, bytes := #[
+      0, 0, 0, 0, 0, 0, 0, 0,         0x20, 0x01, 0x40, 0, 0, 0, 0, 0,
+      0, 0, 0, 0, 0, 0, 0, 0,         0x00, 0x08, 0x40, 0, 0, 0, 0, 0,
+      0, 0, 0, 0, 0, 0, 0, 0,         0, 0, 0, 0, 0, 0, 0, 0 ] }
+def exCfiCtx : Ctx := { ip := 0x400310, sp := 0x1000, rest := [("rbp", 7)] }
+def exCfiChain : List Exp :=
+  [ { ret := 0x400120, sp := 0x1010, fp := some 7 }, { ret := 0x400800, sp := 0x1020, fp := some 0 } ]
+
+theorem exCfi_modTable : modTable exCfiW.mods = [(⟨0x400000, 0x400fff⟩, 0)] := by
+  simp [modTable, exCfiW, RangeMap.safeVec, RangeMap.sortOpt, RangeMap.validOnly, RangeMap.pass, RangeMap.keep,
+    RangeMap.mkRange, List.zipIdx, U64MAX]
+
+theorem exCfi_cfiTable : cfiTable exCfiSf = [(⟨0x100, 0x1ff⟩, 0), (⟨0x300, 0x3ff⟩, 1)] := by
+  have hsep : RangeMap.Sep [(⟨0x100, 0x1ff⟩, 0), (⟨0x300, 0x3ff⟩, 1)] := by
+    simp [RangeMap.Sep, RangeMap.WF, RangeMap.Gap, RangeMap.satSucc, U64MAX]
+  have hl : (exCfiSf.cfis.zipIdx.filterMap fun (c, i) => (RangeMap.mkRange c.addr c.size).map fun r => (r, i)) =
+      [(⟨0x100, 0x1ff⟩, 0), (⟨0x300, 0x3ff⟩, 1)] := by decide
+  unfold cfiTable
+  rw [hl]
+  simp [RangeMap.safeVecP, RangeMap.sortEntries_of_sep _ hsep, RangeMap.pass_of_sep _ hsep]
+
+/-- the record `cfiRecordAt` finds for a lookup address inside the module -/
+theorem exCfi_rec (instr : Nat) (j : Option Nat) (h1 : RangeMap.get [(⟨0x400000, 0x400fff⟩, 0)] instr = some 0)
+    (h2 : RangeMap.get [(⟨0x100, 0x1ff⟩, 0), (⟨0x300, 0x3ff⟩, 1)] (instr - 0x400000) = j) :
+    cfiRecordAt exCfiW instr = j.bind fun j => exCfiSf.cfis[j]? := by
+  have hm : exCfiW.mods[0]? = some { base := 0x400000, size := 0x1000, name := "m" } := rfl
+  have hs : (exCfiW.syms[0]?).join = some exCfiSf := rfl
+  have hge : ¬ instr < 0x400000 := by
+    intro hlt
+    have : RangeMap.get [(⟨0x400000, 0x400fff⟩, 0)] instr = none := by
+      simp [RangeMap.get, RangeMap.bsearch, RangeMap.bsearch.go]; omega
+    rw [this] at h1; cases h1
+  unfold cfiRecordAt moduleAt
+  rw [exCfi_modTable, h1]
+  simp only [hm, hs, if_neg hge, exCfi_cfiTable, h2]
+  cases j <;> rfl
+
+example : cfiRecordAt exCfiW 0x400310 = exCfiSf.cfis[1]? := exCfi_rec 0x400310 (some 1) (by decide) (by decide)
+example : cfiRecordAt exCfiW 0x40011f = exCfiSf.cfis[0]? := exCfi_rec 0x40011f (some 0) (by decide) (by decide)
+example : cfiRecordAt exCfiW 0x4007ff = none := exCfi_rec 0x4007ff none (by decide) (by decide)
+
+theorem exCfi_pre :
+    Pre exCfiW (mkEnv .amd64 .other exCfiW exCfiMem) .amd64 .other .cfi exCfiMem exCfiCtx exCfiChain = true := by
+  have r0 := exCfi_rec 0x400310 (some 1) (by decide) (by decide)
+  have r1 := exCfi_rec 0x40011f (some 0) (by decide) (by decide)
+  have r2 := exCfi_rec 0x4007ff none (by decide) (by decide)
+  simp only [Pre, preCfi, exCfiChain, preCfiFrom, linkCfi, exCfiCtx, Arch.adj, Consts.adj_amd64, Nat.reduceSub,
+    r0, r1, r2]
+  decide
+
+example : (walk (mkEnv .amd64 .other exCfiW exCfiMem) (some exCfiMem) exCfiCtx).map
+      (fun f => (f.trust, f.ctx.ip, f.ctx.sp, f.instruction, f.ctx.raw .amd64 "rbp")) =
+    [(.context, 0x400310, 0x1000, 0x400310, 7), (.cfi, 0x400120, 0x1010, 0x40011f, 7),
+     (.cfi, 0x400800, 0x1020, 0x4007ff, 0)] := by
+  have r0 := exCfi_rec 0x400310 (some 1) (by decide) (by decide)
+  have r1 := exCfi_rec 0x40011f (some 0) (by decide) (by decide)
+  rw [walk_layout_cfi .amd64 .other exCfiW exCfiMem exCfiCtx exCfiChain rfl (by decide) exCfi_pre]
+  simp only [exCfiChain, expectedCfi, List.map_cons, List.map_nil, symbolise_trust, symbolise_ctx,
+    symbolise_instruction, cfiFrame, savesFpAt, Frame.ofCtx, exCfiCtx, Arch.adj, Consts.adj_amd64, Nat.reduceSub,
+    r0, r1]
+  decide
 
 end MdModel.Walk
